@@ -9,6 +9,7 @@ CONSTANTS
   Wallet <- W12
   AllowRestart = FALSE
   AllowRelayOff = TRUE
+  RemovalRace = FALSE
   DesigRace = FALSE
   KeepFirstCopy = FALSE
   WithdrawOnRemoval = FALSE
